@@ -139,4 +139,19 @@ def oracle(ctx):
             res.oracle_failures.append(dict(op='e2e', input=dict(roots=roots, files=files), impl_output=dict(exit=a['exit'], stderr=e2e.error_lines(a['stderr'])[:5]), oracle_expectation=f))
         shutil.rmtree(base, ignore_errors=True)
     res.samples.append(dict(kind='e2e-tree', roots=cases[0][1], files=cases[0][2]))
+    # what is merged is every assignment of every surviving drop-in, after the main file, in name order — also an assignment that
+    # repeats an older value (A, B, A; A, reset, A): histories of that shape cut into main file and drop-ins, through the real loader
+    import filespell
+    HIST = [['AutoUpdate=registry', 'AutoUpdate=local', 'AutoUpdate=registry'], ['PublishPort=8080:80', 'PublishPort=', 'PublishPort=8080:80', 'PublishPort=8443:443'],
+            ['Label=a=1', 'Label=a=2', 'Label=a=1'], ['Environment=M=fast', 'Environment=', 'Environment=M=fast'], ['HostName=a', 'HostName=b', 'HostName=a'],
+            ['PodmanArgs=-v', 'PodmanArgs=--x', 'PodmanArgs=-v'], ['Pull=never', 'Pull=', 'Pull=never'], ['DNS=1.1.1.1', 'DNS=8.8.8.8', 'DNS=1.1.1.1']]
+    sets = []
+    for _ in range(200 if ctx.thorough else 50):
+        lines = ['[Container]', 'Image=localhost/i']
+        for h in rnd.sample(HIST, rnd.randint(1, 3)):
+            lines += h
+        if rnd.random() < 0.4:
+            lines += ['[Service]', 'ExecStartPre=/bin/true', 'ExecStartPre=/bin/false', 'ExecStartPre=/bin/true']
+        sets.append({rnd.choice(['h.container', 'tpl@i.container']): '\n'.join(lines) + '\n'})
+    filespell.compare(ctx, sets, filespell.DROPIN_WAYS, 'C13 repeated values over drop-ins')
     ctx.log(f'oracle: {res.oracle_evals} evaluations, {len(res.oracle_failures)} failures')
